@@ -75,8 +75,8 @@ pub proof fn c20_non_values_untouched(ty: DataCmdType, args: Seq<RV>, i: int)
             r'Err\(CompressionError::Io\(err\)\) => \{\s*return cmd_ctx\.set_resp_result\(.*?\)\)\);\s*\}\s*\}\s*self\.manager\.send\(cmd_ctx\);', flags=re.S, expect_count=1)
     EX.scan('try_compressing_cmd_ctx has no other caller in the executor', r'try_compressing_cmd_ctx\(', expect_count=1)
     RP = U.src('src/proxy/reply.rs')
-    RP.scan('the reply handler hands the packet on only after decompress returned Ok / UnsupportedCmdType / Disabled (otherwise a nil bulk string is returned)',
-            r'match self\.decompressor\.decompress\(&cmd_ctx, &mut packet\) \{\s*Ok\(\(\)\)\s*\| Err\(CompressionError::UnsupportedCmdType\)\s*\| Err\(CompressionError::Disabled\) => \(\),\s*Err\(err\) => \{.*?return cmd_ctx\.set_resp_result\(Ok\(Resp::Bulk\(BulkStr::Nil\)\)\);\s*\}\s*\}\s*cmd_ctx\.set_result\(Ok\(Box::new\(packet\)\)\)', expect_count=1, flags=re.S)
+    RP.scan('the reply handler passes every backend reply to decompress (nothing between taking the packet and the call) and hands it on only after Ok / UnsupportedCmdType / Disabled (otherwise a nil bulk string is returned)',
+            r'let mut packet = match result \{\s*Ok\(pkt\) => pkt,\s*Err\(err\) => \{[^;]*;\s*\}\s*\};\s*match self\.decompressor\.decompress\(&cmd_ctx, &mut packet\) \{\s*Ok\(\(\)\)\s*\| Err\(CompressionError::UnsupportedCmdType\)\s*\| Err\(CompressionError::Disabled\) => \(\),\s*Err\(err\) => \{.*?return cmd_ctx\.set_resp_result\(Ok\(Resp::Bulk\(BulkStr::Nil\)\)\);\s*\}\s*\}\s*cmd_ctx\.set_result\(Ok\(Box::new\(packet\)\)\)', expect_count=1, flags=re.S)
     U.add('} // verus!\nfn main() {}\n')
     U.trust('zstd::encode_all / decode_all as an abstract codec with the ASSUMED round trip zdec(zenc(x)) == x (axiom_zstd_roundtrip)',
             'CmdCtx / Command / RespPacket opaque; accessor contracts (get_command_len, get_command_element, change_cmd_element, to_resp_slice, change_bulk_str, change_bulk_array_element) assumed in the form proved for common::utils on Resp<Vec<u8>> in unit resp_utils; the one-line delegations are read, not verified',
